@@ -25,17 +25,5 @@ Definition settings_parse_bool : fdef :=
      f_body := [(SIf (XCompare (XName "value") [(CIn, (XList [(XConst (PBool true)); (XConst (PBool false))]))]) [(SReturn (Some (XName "value")))] []); (SAssign (TName "norm") (XCallMethod (XCallMethod (XName "value") "strip" []) "lower" [])); (SIf (XCompare (XName "norm") [(CIn, (XList [(XConst (PV (VStr [49]))); (XConst (PV (VStr [116; 114; 117; 101]))); (XConst (PV (VStr [116]))); (XConst (PV (VStr [121; 101; 115]))); (XConst (PV (VStr [121]))); (XConst (PV (VStr [111; 110])))]))]) [(SReturn (Some (XConst (PBool true))))] []); (SIf (XCompare (XName "norm") [(CIn, (XList [(XConst (PV (VStr [48]))); (XConst (PV (VStr [102; 97; 108; 115; 101]))); (XConst (PV (VStr [102]))); (XConst (PV (VStr [110; 111]))); (XConst (PV (VStr [110]))); (XConst (PV (VStr [111; 102; 102])))]))]) [(SReturn (Some (XConst (PBool false))))] []); (SExpr (XPrim "raise" [(XConst (PV (VStr [98; 117; 105; 108; 116; 105; 110; 115; 46; 86; 97; 108; 117; 101; 69; 114; 114; 111; 114]))); (XConst (PV (VStr [34]))); (XPrim "fstring" [(XConst (PV (VStr [34]))); (XName "value"); (XConst (PV (VStr [34; 32; 105; 115; 32; 110; 111; 116; 32; 97; 32; 118; 97; 108; 105; 100; 32; 98; 111; 111; 108; 101; 97; 110])))])]))];
      f_gen := false |}.
 
-(* beanquery.shell.Settings._parse_format *)
-Definition settings_parse_format : fdef :=
-  {| f_params := ["self"; "value"];
-     f_body := [(SIf (XCompare (XName "value") [(CNotIn, (XConst (PRef 1)))]) [(SExpr (XPrim "raise" [(XConst (PV (VStr [98; 117; 105; 108; 116; 105; 110; 115; 46; 86; 97; 108; 117; 101; 69; 114; 114; 111; 114]))); (XConst (PV (VStr [34]))); (XPrim "fstring" [(XConst (PV (VStr [34]))); (XName "value"); (XConst (PV (VStr [34; 32; 105; 115; 32; 110; 111; 116; 32; 97; 32; 118; 97; 108; 105; 100; 32; 102; 111; 114; 109; 97; 116])))])]))] []); (SReturn (Some (XName "value")))];
-     f_gen := false |}.
-
-(* beanquery.shell.Settings.getstr *)
-Definition settings_getstr : fdef :=
-  {| f_params := ["self"; "name"];
-     f_body := [(SIf (XCompare (XName "name") [(CNotIn, (XCall (XAttr (XName "self") "todict") [] None))]) [(SExpr (XPrim "raise" [(XConst (PV (VStr [98; 117; 105; 108; 116; 105; 110; 115; 46; 65; 116; 116; 114; 105; 98; 117; 116; 101; 69; 114; 114; 111; 114]))); (XConst (PV (VStr []))); (XName "name")]))] []); (SAssign (TName "value") (XPrim "builtins.getattr" [(XName "self"); (XName "name")])); (SIf (XPrim "isinstance:builtins.str" [(XName "value")]) [(SReturn (Some (XPrim "builtins.repr" [(XName "value")])))] []); (SIf (XPrim "isinstance:builtins.bool" [(XName "value")]) [(SReturn (Some (XIfExp (XName "value") (XConst (PV (VStr [116; 114; 117; 101]))) (XConst (PV (VStr [102; 97; 108; 115; 101]))))))] []); (SReturn (Some (XPrim "builtins.str" [(XName "value")])))];
-     f_gen := false |}.
-
 Definition refs : list (nat * string) :=
-  [(0%nat, "_warnings.warn:stacklevel"); (1%nat, "FORMATS")].
+  [(0%nat, "_warnings.warn:stacklevel")].
